@@ -68,8 +68,10 @@ fn pop_of(keys: &[i64]) -> Vec<PInd> {
 }
 
 /// One tournament draw with the sampled subset recovered from the comparison log.
-fn draw<P, R: rand::Rng>(t: &Tournament, population: &P, k: usize, rng: &mut R) -> Result<(u32, Vec<u32>), Fail>
+fn draw<S, P, R: rand::Rng>(t: &S, population: &P, k: usize, rng: &mut R) -> Result<(u32, Vec<u32>), Fail>
 where
+    S: Selector<P>,
+    S::Error: std::fmt::Display,
     P: Population<Individual = PInd> + AsRef<[PInd]>,
 {
     let pop: &[PInd] = population.as_ref();
@@ -359,6 +361,7 @@ fn law_jobs(seed: u64) -> Vec<Job> {
                     run: Box::new(move |trials, seed| {
                         let pop = pop_of(&keys2);
                         let t = Tournament::new(NonZeroUsize::new(k).unwrap_or(NonZeroUsize::MIN));
+                        let erased: Box<dyn ec_core::operator::selector::DynSelector<Vec<PInd>> + Send + Sync> = Box::new(Tournament::new(NonZeroUsize::new(k).unwrap_or(NonZeroUsize::MIN)));
                         let mut rng = StdRng::seed_from_u64(seed);
                         let mut subset_counts: BTreeMap<Vec<u32>, u64> = BTreeMap::new();
                         let mut winner_key: BTreeMap<i64, u64> = BTreeMap::new();
@@ -371,7 +374,8 @@ fn law_jobs(seed: u64) -> Vec<Job> {
                                 let _ = t.select(&other_pop, &mut rng).map(|w| w.id).ok();
                                 take_compared();
                             }
-                            let (id, s) = draw(&t, &pop, k, &mut rng)?;
+                            // every third configuration goes through the type-erased form of the selector
+                            let (id, s) = if cfg % 3 == 1 { draw(&erased, &pop, k, &mut rng)? } else { draw(&t, &pop, k, &mut rng)? };
                             if trial % 2 == 1 && prev_key == Some(pop[id as usize].key) {
                                 same_pairs += 1;
                             }
@@ -454,6 +458,7 @@ fn large_law_jobs(seed: u64) -> Vec<Job> {
                 let keys: Vec<i64> = ranks.iter().map(|r| *r as i64).collect();
                 let pop = pop_of(&keys);
                 let t = Tournament::new(NonZeroUsize::new(k).unwrap_or(NonZeroUsize::MIN));
+                let erased: Box<dyn ec_core::operator::selector::DynSelector<Vec<PInd>> + Send + Sync> = Box::new(ec_core::operator::selector::dyn_weighted::DynWeighted::new(Tournament::new(NonZeroUsize::new(k).unwrap_or(NonZeroUsize::MIN)), 2));
                 let mut rng = StdRng::seed_from_u64(seed);
                 let trials = (trials / 4).max(50_000);
                 let mut included = vec![0u64; n];
@@ -476,7 +481,7 @@ fn large_law_jobs(seed: u64) -> Vec<Job> {
                         let _ = t.select(&smaller, &mut rng).map(|w| w.id).ok();
                         take_compared();
                     }
-                    let (id, s) = draw(&t, &pop, k, &mut rng)?;
+                    let (id, s) = if ci % 3 == 2 { draw(&erased, &pop, k, &mut rng)? } else { draw(&t, &pop, k, &mut rng)? };
                     rank_wins[ranks[id as usize]] += 1;
                     if s.len() == k {
                         exact += 1;
@@ -634,7 +639,7 @@ fn constructor_check(ctx: &mut Ctx) {
 }
 
 pub fn run(ctx: &mut Ctx) {
-    ctx.rule = "invariants: generated populations (0..200 individuals ordered by a key, with ties; also as the library's own EcIndividuals ordered by TestResults whose result vectors have different lengths and the keys as totals, in both polarities), all tournament sizes incl. n and n+1, generated random stream; the sampled subset of each tournament is recovered from the ids the individuals' Ord::cmp is asked to compare. laws: for every n <= 7 and k <= n (distinct keys, and a tie-laden variant) seeded draws compared with the uniform law 1/C(n,k) over k-subsets and the winner law obtained by enumerating all k-subsets; for 14 larger configurations (n up to 300, k up to 40) the inclusion rate k/n of every individual, the co-inclusion rate of neighbouring and opposite pairs and the pooled winner-rank law C(r,k-1)/C(n,k); for populations of 65537..300000 (thorough: 2 million) individuals the lowest / highest entrant position and the winner's rank in 16 buckets; the named constructors binary() / of_size::<N>() are the sizes they say. non-trivial = n >= 3 with >= 2 distinct keys and 1 < k < n (invariants); each (statistic, configuration) with 0 < p < 1 (laws)".into();
+    ctx.rule = "invariants: generated populations (0..200 individuals ordered by a key, with ties; also as the library's own EcIndividuals ordered by TestResults whose result vectors have different lengths and the keys as totals, in both polarities), all tournament sizes incl. n and n+1, generated random stream; the sampled subset of each tournament is recovered from the ids the individuals' Ord::cmp is asked to compare. laws (every third configuration through the type-erased form of the selector, boxed or inside a dynamic weighted list of one): for every n <= 7 and k <= n (distinct keys, and a tie-laden variant) seeded draws compared with the uniform law 1/C(n,k) over k-subsets and the winner law obtained by enumerating all k-subsets; for 14 larger configurations (n up to 300, k up to 40) the inclusion rate k/n of every individual, the co-inclusion rate of neighbouring and opposite pairs and the pooled winner-rank law C(r,k-1)/C(n,k); for populations of 65537..300000 (thorough: 2 million) individuals the lowest / highest entrant position and the winner's rank in 16 buckets; the named constructors binary() / of_size::<N>() are the sizes they say. non-trivial = n >= 3 with >= 2 distinct keys and 1 < k < n (invariants); each (statistic, configuration) with 0 < p < 1 (laws)".into();
     ctx.assumptions.push("on ties any maximal individual is accepted; if an implementation compares more than k individuals the subset law is skipped and only the winner law is used".into());
     let (n_cases, trials) = ctx.tier.pick((400_000u32, 1_000_000u64), (6_000_000, 10_000_000));
     ctx.run_prop("invariants", n_cases, || strategy(200), oracle);
